@@ -3531,7 +3531,104 @@ def h(ctx):
     ctx.extra["block1_intermediate_exits_judged"] = len(leaves)
 
 
+# ===========================================================================
+# C05.k  tokens of consecutive block exchanges never repeat
+# ===========================================================================
+
+TOKEN_CALLS = 2048
+
+
+def _token_generator(ctx):
+    """(request function, class, generator method): the method whose value TokenManager.request stores into the
+    `.token` of the message it sends -- found by what is stored, through locals, not by the method's name."""
+    req = ctx.prog.func("tokenmanager.TokenManager.request")
+    calls = []
+    for n in walk_no_nested(req.node):
+        if isinstance(n, ast.Assign) and any(isinstance(t, ast.Attribute) and t.attr == "token" for t in n.targets):
+            calls.append(resolve_local(req.node, n.value))
+        elif isinstance(n, ast.Call):
+            for k in n.keywords:
+                if k.arg in ("token", "_token"):
+                    calls.append(resolve_local(req.node, k.value))
+    ctx.need(len(calls) == 1, "TokenManager.request: exactly one place gives the outgoing message its token (found %d)" % len(calls))
+    v = calls[0]
+    ctx.need(isinstance(v, ast.Call) and isinstance(v.func, ast.Attribute) and isinstance(v.func.value, ast.Name) and v.func.value.id == "self"
+             and not v.args and not v.keywords,
+             "TokenManager.request: the token is the value of a parameterless method of the manager (found %s)" % _text(v))
+    gen = ctx.prog.lookup_method(req.cls.qn, v.func.attr)
+    ctx.need(gen is not None and is_plain_sync(gen), "the token generator self.%s is a plain synchronous method" % v.func.attr)
+    return req, req.cls, gen
+
+
+@R.clause("C05.k", "tokens of consecutive exchanges never repeat: with nothing else outstanding, thousands of successive values of the token generator are pairwise distinct (a late duplicate of one block response can then never be matched to the next block exchange or the next request)")
+def k_token_freshness(ctx):
+    """Added after an independently written change made TokenManager.next_token hand out "the first token after the
+    context's random start that is not currently outstanding": a block-wise transfer is a SEQUENCE of exchanges, each
+    finished (its key popped from outgoing_requests) before the next begins, so every block request and every
+    following request carried the same token; responses are matched by (token, remote) only and not de-duplicated at
+    that level, so a delayed second copy of the last Block2 response of GET /a became the body of GET /b.
+
+    Necessary condition (property text: "every loss/duplication pattern of the individual block exchanges ... never
+    yields a truncated, duplicated or mixed body"): the token of an exchange differs from the tokens of the exchanges
+    before it even when those are no longer outstanding.  Decided by the checker's own concrete evaluator
+    (_kit_c05.Machine): one manager object with its fields initialised as __init__ initialises them (a random start
+    is a choice point: lowest and highest value), every field the generator does not write itself left in its
+    initial state -- exactly the state between the exchanges of one sequential transfer -- and the generator called
+    TOKEN_CALLS times.  All values must be byte strings, of at most 8 bytes (RFC 7252 section 3: TKL 0..8), and
+    pairwise distinct.  The generator is interpreted, not matched: counter + to_bytes, struct.pack, masks instead of
+    a modulus, helper methods, loops and comprehensions are all the same to it.  Premise of the simulation (need, not a
+    violation): the fields the generator writes have no other writer in the class besides __init__.  A generator the
+    evaluator cannot interpret (randomness drawn per call, foreign objects) is refused."""
+    from ._kit_c05 import Machine, Refuse
+    req, ci, gen = _token_generator(ctx)
+    repeat = shape = None
+    written = set()
+    for pick in (0, 1):
+        M = Machine(ctx.prog, ci, pick)
+        seen = {}
+        try:
+            for i in range(TOKEN_CALLS):
+                t = M.call(gen, [], {})
+                if not isinstance(t, bytes) or len(t) > 8:
+                    shape = shape or (i, t)
+                    break
+                if t in seen:
+                    repeat = repeat or (seen[t], i, t, M.state.get(next(iter(sorted(M.fields_written))), None) if M.fields_written else None)
+                    break
+                seen[t] = i
+        except Refuse as x:
+            raise AnalysisError("%s is outside the vocabulary of the token evaluator: %s" % (gen.short, x))
+        written |= M.fields_written
+    ctx.extra["token_generator"] = gen.short
+    ctx.extra["token_generator_state_fields"] = sorted(written)
+    ctx.ob("the token generator returns a byte string of at most 8 bytes", shape is None, gen, gen.node, construct="token generator: value shape",
+           detail="call %d returns %r" % shape if shape else None)
+    ctx.ob("successive tokens are pairwise distinct although no earlier exchange is outstanding any more (a late duplicate of an earlier block response must not match the next exchange)",
+           repeat is None, gen, gen.node, construct="token generator: freshness",
+           detail=("call %d returns the token of call %d again (%s)" % (repeat[1] + 1, repeat[0] + 1, repeat[2].hex() or "empty")) if repeat
+           else "%d successive tokens from the lowest and from the highest start value are pairwise distinct" % TOKEN_CALLS)
+    # premise of the simulation: nobody else moves the generator's state
+    for fld in sorted(written):
+        for q in [ci.qn] + list(ctx.prog.subclasses(ci.qn)):
+            c = ctx.prog.classes.get(q)
+            for name, m in (c.methods.items() if c else ()):
+                if m is gen or name == "__init__":
+                    continue
+                ctx.need(not stores_to(m.node, "self." + fld), "%s also writes the token generator's state self.%s: the simulation of the generator alone does not describe the tokens handed out" % (m.short, fld))
+
+
 F_PRO = "aiocoap/protocol.py"
+F_TOK = "aiocoap/tokenmanager.py"
+
+R.seed("C05.k", F_TOK, "self._token = (self._token + 1) % (2**64)\n        return self._token.to_bytes(8, \"big\")", "token = (self._token + 1) % (2**64)\n        return token.to_bytes(8, \"big\")",
+       "the counter is never stored back: every request carries the same token")
+R.seed("C05.k", F_TOK, "self._token = (self._token + 1) % (2**64)", "self._token = (self._token + 1) % 256", "tokens repeat after 256 requests")
+R.seed("C05.k", F_TOK, "return self._token.to_bytes(8, \"big\").lstrip(b\"\\0\")", "return self._token.to_bytes(8, \"big\")[-1:]", "only the low byte of the counter is used")
+R.seed("C05.k", F_TOK, "self._token = (self._token + 1) % (2**64)", "self._token = (self._token + 2) % 4 + 65536", "counter cycles through two values")
+R.seed("C05.k", F_TOK, "return self._token.to_bytes(8, \"big\").lstrip(b\"\\0\")", "return (self._token >> 1).to_bytes(8, \"big\").lstrip(b\"\\0\")", "two consecutive counter values share a token")
+R.seed("C05.k", F_TOK, "self._token = (self._token + 1) % (2**64)\n        return self._token.to_bytes(8, \"big\").lstrip(b\"\\0\")",
+       "in_use = {token for (token, _) in self.outgoing_requests}\n        candidate = self._token\n        while True:\n            candidate = (candidate + 1) % (2**64)\n            token = candidate.to_bytes(8, \"big\").lstrip(b\"\\0\")\n            if token not in in_use:\n                return token",
+       "first token that is not outstanding: sequential exchanges reuse it")
 
 R.seed("C05.a", F_MSG, "more = True if end < len(self.payload) else False", "more = True if end <= len(self.payload) else False", "more flag on the final block")
 R.seed("C05.a", F_MSG, "size = 2 ** (size_exp + 4)", "size = 2 ** (size_exp + 3)", "half-size blocks")
